@@ -475,7 +475,12 @@ pub struct Job<'a> {
     pub budget: u64,
 }
 
+/// Set as soon as this process has compiled anything: from then on its
+/// process-wide rsass state is no longer that of a fresh process.
+pub static COMPILED_HERE: std::sync::atomic::AtomicBool = std::sync::atomic::AtomicBool::new(false);
+
 pub fn run_job(job: &Job) -> Outcome {
+    COMPILED_HERE.store(true, std::sync::atomic::Ordering::Relaxed);
     let st = Rc::new(RefCell::new(LoaderState::new(job.plan.clone(), job.chunk, job.budget)));
     let loader = SimLoader { store: job.store.clone(), st: st.clone() };
     let res = catch_unwind(AssertUnwindSafe(|| {
